@@ -128,6 +128,9 @@ func (p *printer) bare(n *Node) string {
 		}
 		return sym + "(" + p.pr(n.A) + ")"
 	case "fn":
+		if n.Sp == "blank" {
+			return n.Op + " (" + p.pr(n.A) + ")"
+		}
 		return n.Op + "(" + p.pr(n.A) + ")"
 	case "imul":
 		// A is a literal, or X^literal: as the left operand of a * it needs no
@@ -430,13 +433,15 @@ func prescan(ts []tok) string {
 				if i >= 2 && ts[i-2].k == tOp && (ts[i-2].s == "-" || ts[i-2].s == "!") && (i == 2 || ts[i-3].k == tOp || ts[i-3].k == tLP) {
 					return "unary operator applied to an implied multiplication"
 				}
-			case t.k == tLP && prev.k == tFunc && !t.sp:
+			case t.k == tLP && prev.k == tFunc:
 			default:
 				return "two operands without an operator between them"
 			}
 		}
-		if t.k == tFunc && (i+1 >= len(ts) || ts[i+1].k != tLP || ts[i+1].sp) {
-			return "name of a unary operator not directly followed by a group"
+		// "they need to be followed by a group, eg. cos(x)": blanks are not
+		// significant anywhere else in a formula, so "cos (x)" is the same call
+		if t.k == tFunc && (i+1 >= len(ts) || ts[i+1].k != tLP) {
+			return "name of a unary operator not followed by a group"
 		}
 		if t.k == tOp {
 			if i > 0 && ts[i-1].k == tOp && !t.sp {
